@@ -41,6 +41,9 @@ def run(d):
             hit = hit or (r.returncode == 1 and any(
                 ln.startswith('VIOLATION property=' + p)
                 for ln in r.stdout.splitlines()))
+        if meta.get('out_of_reach'):
+            # recorded as not decidable by this family: reported, not counted
+            return meta['name'], pid, hit or None, sorted(rules)
         return meta['name'], pid, hit, sorted(rules)
     finally:
         shutil.rmtree(tmp, ignore_errors=True)
@@ -48,13 +51,18 @@ def run(d):
 
 def main():
     dirs = sorted(glob.glob(os.path.join(HERE, 'seeded', '*', '')))
-    missed = 0
+    missed = skipped = 0
     with cf.ThreadPoolExecutor(max_workers=12) as ex:
         for name, pid, hit, rules in ex.map(run, dirs):
-            print('%-5s %s %s %s' % (name, pid, 'detected' if hit else
-                                     'MISSED', ','.join(rules)))
-            missed += not hit
-    print('%d/%d seeded changes detected' % (len(dirs) - missed, len(dirs)))
+            print('%-5s %s %s %s' % (
+                name, pid, 'detected' if hit else
+                'not detected (recorded as out of reach)' if hit is None
+                else 'MISSED', ','.join(rules)))
+            missed += hit is False
+            skipped += hit is None
+    print('%d/%d seeded changes detected (%d more recorded as out of reach '
+          'of static analysis)' % (len(dirs) - missed - skipped,
+                                   len(dirs) - skipped, skipped))
     return 1 if missed else 0
 
 
